@@ -6,17 +6,34 @@ from harness import gen_graph, tlc
 from harness.runner import pmap
 
 
+def staged_corpus(rng, n):
+    """Descriptions without incompatibilities in which some derivation edge leaving an option can be added after a first
+    initialisation (see build.held_back_edges), built through that history."""
+    from harness.build import held_back_edges
+    from harness.gd import normalise
+    out, tries = [], 0
+    while len(out) < n and tries < 40*n:
+        tries += 1
+        g = gen_graph.random_graph(rng, nmin=4, nmax=9, max_ch=3, n_inc=(0, 0), max_space=60)
+        if held_back_edges(normalise(g))[1]:
+            out.append(gen_graph.staged(g))
+    return out
+
+
 def corpus(ctx):
-    gs = [gen_graph.theory_example()]
+    gs = [gen_graph.theory_example()] + gen_graph.incompatibility_chain_family()
     if ctx.quick:
         gs += list(gen_graph.exhaustive_family(4, max_inc=1))
         rng = ctx.rng('graph')
         gs += [gen_graph.random_graph(rng) for _ in range(500)]
+        # a design space that grows after its first initialisation (initialise - add derivation edges - initialise)
+        gs += staged_corpus(rng, 150)
     else:
         gs += list(gen_graph.exhaustive_family(4, max_inc=2))
         gs += list(gen_graph.exhaustive_family(5, max_inc=1))
         rng = ctx.rng('graph')
         gs += [gen_graph.random_graph(rng, nmin=6, nmax=13, max_space=400) for _ in range(6000)]
+        gs += staged_corpus(rng, 1500)
     return gs
 
 
@@ -31,7 +48,7 @@ def drive_one(item):
     from harness import drive_graph
     tid, g = item
     try:
-        return drive_graph.explore(g, tid=tid)
+        return drive_graph.explore(g, tid=tid, staged='staged_build' in g.get('feat', []))
     except Exception as e:   # a crash outside a recorded call: machinery failure, reported as such
         import traceback
         return {'tid': tid, 'g': g, 'crash': traceback.format_exc(limit=8)}
